@@ -42,7 +42,9 @@ def explore(ctx, for_c16=False):
                 for b in o["c16"]:
                     ctx.violation(f"[{v}] chain {describe(case)}: {b}", {"case": case, "interpreter": v})
                 if o.get("f5"):
-                    ctx.known("F5", f"[{v}] chain {describe(case)}: frames {o['f5']} inherit the running root as origin")
+                    # F5 was repaired in /repo (see known_findings.json): a fixed entry excuses nothing
+                    ctx.violation(f"[{v}] chain {describe(case)}: frames {o['f5']} inherit the running root as origin (the F5 shape)",
+                                  {"case": case, "interpreter": v})
             for t in o["traces"] + (o.get("c16_traces", []) if for_c16 else []):
                 all_traces.append(t)
                 owners.append((v, o["idx"]))
@@ -68,7 +70,8 @@ def explore(ctx, for_c16=False):
                 if strict:
                     ctx.violation(f"[{v}] chain {describe(case)}: origin contract violated for frames {strict} (model verdict)", {"case": case, "trace": t})
                 elif vd["oexc"]:
-                    ctx.known("F5", f"[{v}] chain {describe(case)}: model verdict: frames {vd['oexc']} inherit a generator-type origin")
+                    ctx.violation(f"[{v}] chain {describe(case)}: model verdict: frames {vd['oexc']} inherit a generator-type origin (the F5 shape)",
+                                  {"case": case, "trace": t})
         ctx.sample({"chain": cases[owners[0][1]], "trace_events": all_traces[0]["events"][:4]})
     ctx.note("skipped", skipped)
 
